@@ -7,7 +7,7 @@
   * `ParseLong.restM_of_not_names`   the part of `parse` after the sign, on a numeral
   * `ParseLong.parseM_value`, `ParseLong.parse_value'`   the same through `Gen.parse` (sign, names excluded by the grammar)
 -/
-import D128.Proofs.ParseLongCode
+import D128.Proofs.ParseLongFinish
 import D128.Proofs.ParseLiteral
 
 set_option linter.unusedSimpArgs false
@@ -19,12 +19,12 @@ open Parse
 local notation "𝔳[" d "]" => Spec.interp (Gen.Decimal.lo d) (Gen.Decimal.hi d)
 
 theorem parseNumber_value' (g : Globals) (d : Go.Bytes) (neg sep : Bool) (m : Spec.Mode)
-    (hm : Spec.Mode.ofNat? g.DefaultRoundingMode.toNat = some m) (hsz : d.size + 6216 ≤ 10 ^ 9)
+    (hm : Spec.Mode.ofNat? g.DefaultRoundingMode.toNat = some m) (hsz : d.size + 6216 ≤ 2 ^ 58)
     (n : Nat) (sc : Int) (h : Spec.readNumber sep (d.toList.map toChar) = some (n, sc)) :
     ∃ v e, Gen.parseNumber g d neg sep = .ok (v, e) ∧
       (𝔳[v]).same (Spec.literalValue m neg n sc).1 = true ∧
       e = (if (Spec.literalValue m neg n sc).2 then Go.Err.parseNumberRangeError else Go.Err.nil) := by
-  rw [parseNumber_eq_model' g d neg sep m hm hsz]
+  rw [parseNumber_eq_model g d neg sep (by omega)]
   exact model_value g d.toList neg sep m hm (by simpa using hsz) n sc h
 
 /-! ## `parse` -/
@@ -71,7 +71,7 @@ theorem readNumber_nil (sep : Bool) : Spec.readNumber sep [] = none := by
   cases sep <;> decide
 
 theorem restM_value (g : Globals) (op : UInt64) (body : List UInt8) (neg : Bool) (m : Spec.Mode)
-    (hm : Spec.Mode.ofNat? g.DefaultRoundingMode.toNat = some m) (hlen : body.length + 6216 ≤ 10 ^ 9)
+    (hm : Spec.Mode.ofNat? g.DefaultRoundingMode.toNat = some m) (hlen : body.length + 6216 ≤ 2 ^ 58)
     (hi : isInfL body = false) (hn : isNanL body = false) (n : Nat) (sc : Int)
     (h : Spec.readNumber true (body.map toChar) = some (n, sc)) :
     ∃ v e, restM g op body neg = .ok (v, e) ∧
@@ -88,7 +88,7 @@ theorem restM_value (g : Globals) (op : UInt64) (body : List UInt8) (neg : Bool)
   split <;> rfl
 
 theorem parseM_value (g : Globals) (op : UInt64) (cs : List UInt8) (m : Spec.Mode)
-    (hm : Spec.Mode.ofNat? g.DefaultRoundingMode.toNat = some m) (hlen : cs.length + 6216 ≤ 10 ^ 9)
+    (hm : Spec.Mode.ofNat? g.DefaultRoundingMode.toNat = some m) (hlen : cs.length + 6216 ≤ 2 ^ 58)
     (neg : Bool) (n : Nat) (sc : Int)
     (h : Spec.readLiteral true true (cs.map toChar) = some (.num neg n sc)) :
     ∃ v e, parseM g op cs = .ok (v, e) ∧
@@ -125,7 +125,7 @@ theorem parseM_value (g : Globals) (op : UInt64) (cs : List UInt8) (m : Spec.Mod
       exact restM_value g op (c :: body) false m hm (by simpa using hlen) hi hn n sc hr
 
 theorem parse_value' (g : Globals) (d : Go.Bytes) (op : UInt64) (m : Spec.Mode)
-    (hm : Spec.Mode.ofNat? g.DefaultRoundingMode.toNat = some m) (hsz : d.size + 6216 ≤ 10 ^ 9)
+    (hm : Spec.Mode.ofNat? g.DefaultRoundingMode.toNat = some m) (hsz : d.size + 6216 ≤ 2 ^ 58)
     (neg : Bool) (n : Nat) (sc : Int)
     (h : Spec.readLiteral true true (d.toList.map toChar) = some (.num neg n sc)) :
     ∃ v e, Gen.parse g d op = .ok (v, e) ∧
@@ -134,7 +134,7 @@ theorem parse_value' (g : Globals) (d : Go.Bytes) (op : UInt64) (m : Spec.Mode)
   rw [parse_eq g d op (by omega)]
   exact parseM_value g op d.toList m hm (by simpa using hsz) neg n sc h
 
-/-! ## rejected inputs (without the hypothesis that `reduce128` returns) -/
+/-! ## rejected inputs: the exact result -/
 
 theorem model_reject (g : Globals) (cs : List UInt8) (neg sep : Bool)
     (h : Spec.readNumber sep (cs.map toChar) = none) :
@@ -151,26 +151,24 @@ theorem model_reject (g : Globals) (cs : List UInt8) (neg sep : Bool)
     apply finish_syn
     cases h1 : s.caneof <;> cases h2 : s.sawdig <;> simp_all
 
-theorem parseNumber_reject' (g : Globals) (d : Go.Bytes) (neg sep : Bool) (m : Spec.Mode)
-    (hm : Spec.Mode.ofNat? g.DefaultRoundingMode.toNat = some m) (hsz : d.size + 6216 ≤ 10 ^ 9)
+theorem parseNumber_reject' (g : Globals) (d : Go.Bytes) (neg sep : Bool) (hsz : d.size < 2 ^ 63)
     (h : Spec.readNumber sep (d.toList.map toChar) = none) :
     Gen.parseNumber g d neg sep = .ok ((default : Gen.Decimal), Go.Err.parseNumberSyntaxError) := by
-  rw [parseNumber_eq_model' g d neg sep m hm hsz]
+  rw [parseNumber_eq_model g d neg sep hsz]
   exact model_reject g d.toList neg sep h
 
-theorem restM_reject (g : Globals) (op : UInt64) (body : List UInt8) (neg : Bool) (m : Spec.Mode)
-    (hm : Spec.Mode.ofNat? g.DefaultRoundingMode.toNat = some m) (hlen : body.length + 6216 ≤ 10 ^ 9)
+theorem restM_reject (g : Globals) (op : UInt64) (body : List UInt8) (neg : Bool)
+    (hlen : body.length < 2 ^ 63)
     (hi : isInfL body = false) (hn : isNanL body = false)
     (h : Spec.readNumber true (body.map toChar) = none) :
     restM g op body neg = .ok ((default : Gen.Decimal), Go.Err.parseSyntaxError) := by
   by_cases hne : body = []
   · subst hne; rfl
   rw [restM_of_not_names g op body neg hi hn hne]
-  have hp := parseNumber_reject' g body.toArray neg true m hm (by simpa using hlen) (by simpa using h)
+  have hp := parseNumber_reject' g body.toArray neg true (by simpa using hlen) (by simpa using h)
   exact tailNum_of_ok g _ neg _ _ hp
 
-theorem parseM_reject (g : Globals) (op : UInt64) (cs : List UInt8) (m : Spec.Mode)
-    (hm : Spec.Mode.ofNat? g.DefaultRoundingMode.toNat = some m) (hlen : cs.length + 6216 ≤ 10 ^ 9)
+theorem parseM_reject (g : Globals) (op : UInt64) (cs : List UInt8) (hlen : cs.length < 2 ^ 63)
     (h : Spec.readLiteral true true (cs.map toChar) = none) :
     parseM g op cs = .ok ((default : Gen.Decimal), Go.Err.parseSyntaxError) := by
   cases cs with
@@ -184,18 +182,18 @@ theorem parseM_reject (g : Globals) (op : UInt64) (cs : List UInt8) (m : Spec.Mo
       rw [if_pos (by decide)]
       rw [if_neg (show toChar 43 ≠ '-' by decide), if_pos (show toChar 43 = '+' from rfl)] at h
       obtain ⟨hi, hn, hr⟩ := (litBody_none_iff true false true body).mp h
-      exact restM_reject g op body false m hm (by omega) hi hn hr
+      exact restM_reject g op body false (by omega) hi hn hr
     by_cases h45 : c = 45
     · subst h45
       rw [if_neg (by decide), if_pos (by decide)]
       rw [if_pos (show toChar 45 = '-' from rfl)] at h
       obtain ⟨hi, hn, hr⟩ := (litBody_none_iff true true true body).mp h
-      exact restM_reject g op body true m hm (by omega) hi hn hr
+      exact restM_reject g op body true (by omega) hi hn hr
     · rw [if_neg (by simpa using h43), if_neg (by simpa using h45)]
       have e1 : toChar c ≠ '-' := fun hh => h45 (toChar_inj (hh.trans toChar_45.symm))
       have e2 : toChar c ≠ '+' := fun hh => h43 (toChar_inj (hh.trans toChar_43.symm))
       rw [if_neg e1, if_neg e2, ← List.map_cons] at h
       obtain ⟨hi, hn, hr⟩ := (litBody_none_iff true false false (c :: body)).mp h
-      exact restM_reject g op (c :: body) false m hm (by simpa using hlen) hi hn hr
+      exact restM_reject g op (c :: body) false (by simpa using hlen) hi hn hr
 
 end ParseLong
